@@ -40,3 +40,64 @@ def check_C21(ctx, replay=None):
     return finish(ctx, "model_checking", cov,
                   ["blob-string framing only (what redis clients send); commands are checked one at a time, the dispatcher's "
                    "command-name lookup is covered by C22"])
+
+
+def check_C22(ctx, replay=None):
+    quick = ctx.quick()
+    # the API model's own properties, every command over small bounds
+    ex = run_tlc(ctx, "MCApi", core.make_cfg(ctx, "MCApi.cfg", MaxCmd=3 if quick else 4), workers=8, tags=(),
+                 timeout=3000, xmx="12g")
+    _tlc_must_hold(ctx, ex, "c22:tlc-invariant")
+    hist = ctx.path("api-histories.ndjson")
+    sims = []
+    if replay:
+        rp = json.load(open(replay))["replay"]
+        with open(hist, "w") as f:
+            f.write(json.dumps(rp["history"]) + "\n")
+        n = 1
+    else:
+        n = 0
+        with open(hist, "w") as f:
+            for cfg, num in (("MCApiSim.cfg", 45 if quick else 900), ("MCApiSimStrict.cfg", 12 if quick else 150)):
+                sim = run_tlc(ctx, "MCApi", cfg, workers=1, simulate=num, depth=46, timeout=3000, tags=("REPLAY",),
+                              coverage=False)
+                if not sim.ok:
+                    raise core.ToolError("Api simulation failed: %s (%s)" % (sim.error, sim.log))
+                sims.append(sim)
+                for t, v in sim.prints:
+                    f.write(json.dumps(v) + "\n")
+                    n += 1
+        if n == 0:
+            raise core.ToolError("TLC produced no API histories")
+    binary = cargo_build(ctx, "h-resp")
+    hr = run_harness(ctx, binary, ["api", hist, ctx.path("api-run")], timeout=12000)
+    for v in hr.violations:
+        add_violation(ctx, v["key"], v["detail"], v["replay"])
+    cov = {
+        "states": ex.distinct, "transitions": ex.generated,
+        "traces_validated_against_impl": hr.stats.get("histories_completed", 0),
+        "histories": hr.stats.get("histories"),
+        "evaluations": hr.stats["evaluations"], "distinct_nontrivial": hr.stats["distinct_classes"],
+        "samples": hr.stats.get("samples", []),
+        "has_more_true_on_last_page": hr.stats.get("has_more_true_on_last_page", 0),
+        "has_more_true_beyond_requested_range": hr.stats.get("has_more_true_beyond_requested_range", 0),
+        "rule": "Api.tla puts the RESP commands on top of the reference event store (EventStore.tla): each command is an action that "
+                "records the command and the reply the model prescribes (append outcome with first sequence and per-event versions; "
+                "EGET record or null; scan pages with the has_more obligations; latest version / sequence; what every subscription "
+                "owes per unit in order, capped by acknowledged + window; an error and an unchanged state for 40 kinds of invalid "
+                "request). TLC checks the model's own properties exhaustively for small bounds (AppendReplyMatchesLog, PagingComplete, "
+                "FlagsConsistent, WindowBound, the store invariants) and generates 45-command histories by simulation (lax and strict "
+                "versioning). Each history is sent, command by command, over a real TCP connection as raw RESP3 to a real single-node "
+                "server (Database + ClusterActor + Server::listen, dev profile with overflow checks, three storage variants with segment "
+                "rollover and compression); every reply is decoded and compared field by field (ids, keys, partition, sequences, versions, "
+                "timestamps, payload, metadata, transaction ids), pushed subscription messages are compared with what is owed (order per "
+                "unit, cursors, nothing beyond the window, nothing extra after a grace period), and the connection must survive every "
+                "invalid request. evaluations = commands sent; distinct_nontrivial = command/outcome classes seen.",
+    }
+    return finish(ctx, "model_checking", cov,
+                  ["reads and subscriptions through a partition key of another partition than the one the stream lives in (same bucket) "
+                   "are outside the generated domain (stream identity is per bucket, gating per partition)",
+                   "has_more = true on a non-empty last page, or when events exist only beyond the requested end, is tolerated (counted): "
+                   "the property asks that has_more never hides events; an empty page with has_more = true and nothing at or after the "
+                   "start is a violation",
+                   "error replies are compared as error / no error, not by code"])
